@@ -105,8 +105,51 @@ _PROG = None
 def e1_skip(key):
     f = _PROG.fns.get(key) if _PROG else None
     if f is not None:
-        return f.file == "src/util/rangeint.rs"
+        return f.file == "src/util/rangeint.rs" or key in contract_panickers(_PROG)
     return "util::rangeint::" in key
+
+
+_OPS = re.compile(r"^<(?P<ty>[^<>]+(?:<[^<>]*>)?) as core::ops::(?:Add|Sub|Mul|Div|Rem|Neg|AddAssign|SubAssign|MulAssign|DivAssign|RemAssign)(?:<.*>)?>::\w+$")
+_CP_CACHE = {}
+
+
+def contract_panickers(prog):
+    """Operator impls of jiff's own value types (`a + b`, `a -= b`, `-a`, `span * n`) that panic on overflow by documented
+    contract: their bodies contain an explicit panic / expect / unwrap (directly, or by delegating to another such operator).
+    E1 does not descend into them; instead every CALL of one of them is a panic site of the caller, so a new use of a
+    panicking operator on a fallible path is a new obligation (reviewing the operator's body once, with a list of today's
+    callers, would silently cover tomorrow's)."""
+    if id(prog) in _CP_CACHE:
+        return _CP_CACHE[id(prog)]
+    cands = {}
+    for k, f in prog.fns.items():
+        if f.crate != "jiff" or f.is_closure or f.file == "src/util/rangeint.rs" or f.file == "src/util/t.rs":
+            continue
+        if _OPS.match(f.path):
+            cands[k] = f
+    out = set()
+    changed = True
+    while changed:
+        changed = False
+        for k, f in cands.items():
+            if k in out:
+                continue
+            hit = False
+            for b in f.blocks:
+                t = b["term"]
+                if t["t"] != "call" or "path" not in t:
+                    continue
+                p_ = t["path"]
+                if p_ in PANIC_FNS or p_.startswith("core::panicking::") or \
+                        (p_ in PANICKY_STD and PANICKY_STD[p_].rsplit("::", 1)[-1] in ("expect", "unwrap")):
+                    hit = True
+                elif t.get("rkrate") and (t["rkrate"] + "::" + p_) in out:
+                    hit = True
+            if hit:
+                out.add(k)
+                changed = True
+    _CP_CACHE[id(prog)] = out
+    return out
 
 
 _src_cache = {}
@@ -196,6 +239,9 @@ def enumerate_sites(fn, debug_assertions=True):
                 kind = "panic"
                 detail = "%s!(%s)" % (mac or path.split("::")[-1], msg[:70])
                 site = (kind, detail, span)
+            elif _PROG is not None and t.get("rkrate") == "jiff" and ("jiff::" + path) in contract_panickers(_PROG):
+                span = t["span"]
+                site = ("op", "call %s" % path, span)
             elif path in PANICKY_STD:
                 span = t["span"]
                 short = PANICKY_STD[path]
